@@ -191,7 +191,34 @@ Proof. unfold ll_shape. destruct (disarmable c); reflexivity. Qed.
 Lemma R_dead c s m : dead s = true -> mdead m = true -> R c s m.
 Proof. unfold R. intros -> H. exact H. Qed.
 
-Ltac dead_end := eexists; split; [reflexivity | apply R_dead; reflexivity].
+Ltac dead_end := eexists; split; [reflexivity | first [apply R_dead; reflexivity | reflexivity]].
+
+Lemma in_range_intro a b t : a < two16 -> b < num_channels -> t < two32 -> in_range a b t = true.
+Proof. unfold in_range. intros A B T. apply N.ltb_lt in A, B, T. rewrite A, B, T. reflexivity. Qed.
+
+Lemma skip_recorded_show c k : match (if disarmable c then Some k else None) with Some x => x =? k | None => true end = true.
+Proof. destruct (disarmable c); [apply N.eqb_refl | reflexivity]. Qed.
+
+Lemma move_back_some s mm iv nl s' : move_back s mm iv nl = Some s' ->
+  mm <= max_latency /\ exists p, dt_mul iv mm = Some p /\ p <= time s /\
+  s' = mk ((counter s + two16 - mm) mod two16) ((chan s + move_offset - mm) mod num_channels) (time s - p) nl (cur s) false.
+Proof.
+  unfold move_back. destruct (N.ltb_spec max_latency mm) as [A|A]; [discriminate|].
+  destruct (dt_mul iv mm) as [p|]; [|discriminate].
+  destruct (dt_sub (time s) p) as [t'|] eqn:B; [|discriminate].
+  apply dt_sub_some in B. destruct B as [-> B]. intros H. injection H as <-. eauto.
+Qed.
+
+Lemma move_back_none s mm iv nl : move_back s mm iv nl = None -> time s < two32 ->
+  max_latency < mm \/ time s < mm * iv.
+Proof.
+  unfold move_back. intros H T. destruct (N.ltb_spec max_latency mm) as [A|A]; [left; exact A|]. right.
+  destruct (N.lt_ge_cases (iv * mm) two32) as [E|E]; [|rewrite N.mul_comm; lia].
+  destruct (dt_mul iv mm) as [p|] eqn:M; [|exfalso; exact (dt_mul_total _ _ E M)].
+  apply dt_mul_exact in M; [|exact E]. subst p.
+  destruct (dt_sub (time s) (iv * mm)) eqn:B; [discriminate|].
+  apply dt_sub_none in B. rewrite N.mul_comm. exact B.
+Qed.
 
 Section Sim.
   Variables (c : cfg) (s : state) (m : mon).
@@ -208,54 +235,423 @@ Section Sim.
     destruct I. unfold goal, step, mstep. rewrite Ds, Dm. cbn [fst snd show counter chan time ll].
     eexists. split.
     - apply judge_ok. cbn [forallb fst]. rewrite ll_shape_show. destruct (disarmable c); reflexivity.
-    - unfold R. cbn [dead]. split; [reflexivity|]. constructor; cbn; auto; try (unfold two16, num_channels, two32; lia).
+    - unfold R. cbn [dead]. split; [reflexivity|]. constructor; cbn; auto; try reflexivity.
+      intros _. clear. lia.
   Qed.
 
   Lemma sim_plan lat0 ev iv0 pend inst0 : lat0 mod two16 <> two16 - 1 -> goal (Plan lat0 ev iv0 pend inst0).
   Proof.
     intros L. destruct I. unfold goal, step, mstep. rewrite Ds, Dm.
-    set (lat := lat0 mod two16) in *. set (iv := iv0 mod two32). set (inst := inst0 mod two16).
-    assert (Llat : lat < two16 - 1) by (subst lat; unfold two16 in *; lia).
-    assert (Liv : iv < two32) by (subst iv; unfold two32; lia).
+    pose proof (lt16 lat0) as L16. pose proof (lt32 iv0) as Liv.
+    set (lat := lat0 mod two16) in *. set (iv := iv0 mod two32) in *. set (inst := inst0 mod two16).
+    assert (Llat : lat < two16 - 1) by (clear - L L16; unfold two16 in *; lia).
     pose proof (plan_skip_range c s lat ev pend inst Llat) as K.
     pose proof (plan_skip_listen c s lat ev pend inst) as KL.
     pose proof (plan_skip_le_distance c s lat ev pend inst) as KD.
+    pose proof (plan_skip_lt16 c s lat ev pend inst) as K16.
     set (k := plan_skip c s lat ev pend inst) in *.
     destruct (dt_mul iv k) as [t'|] eqn:M.
     - replace (disarmable c && (k =? 0)) with false
-        by (destruct (disarmable c); cbn; [symmetry; apply N.eqb_neq; lia | reflexivity]).
+        by (destruct (disarmable c); cbn; [symmetry; apply N.eqb_neq; clear - K; lia | reflexivity]).
       cbn [fst snd show counter chan time ll].
-      pose proof (dt_mul_bound _ _ _ M Liv) as Tb.
+      assert (Tb : t' < two32) by (apply (dt_mul_bound _ _ _ M Liv); clear - K16; unfold two16, two32 in *; lia).
       pose proof (dt_mul_exact _ _ _ M) as Te.
-      assert (S : ((counter s + k) mod two16 + two16 - mc m) mod two16 = k)
-        by (rewrite i_c0; unfold two16 in *; lia).
-      rewrite S.
+      rewrite i_c0, (obs_skip _ _ i_cr0 K16).
       eexists. split.
       + apply judge_ok. cbn [forallb fst]. rewrite ll_shape_show.
-        rewrite i_cur0, (must_listen_eq c s ev i_set0), i_ch0, i_c0.
-        assert (A1 : in_range ((counter s + k) mod two16) ((chan s + k) mod num_channels) t' = true)
-          by (unfold in_range, two16, num_channels, two32 in *; lia).
+        rewrite i_cur0, (must_listen_eq c s ev i_set0), i_ch0.
+        rewrite (in_range_intro _ _ _ (lt16 _) (lt37 _) Tb).
+        assert (A0 : (1 <=? k) && (k <=? lat + 1) = true) by (clear - K; lia).
         assert (A2 : negb (listen_now c s ev) || (k =? 1) = true)
           by (destruct (listen_now c s ev); cbn; [rewrite KL by reflexivity; reflexivity | reflexivity]).
         assert (A3 : negb pend || ((inst + two16 - counter s) mod two16 =? 0) || (k <=? (inst + two16 - counter s) mod two16) = true).
         { destruct pend; cbn; [|reflexivity]. specialize (KD eq_refl).
           destruct (N.eqb_spec ((inst + two16 - counter s) mod two16) 0) as [E|E]; cbn; [reflexivity|].
-          apply N.leb_le. apply KD. lia. }
+          apply N.leb_le. apply KD. apply N.neq_0_lt_0. exact E. }
         assert (A4 : negb (k * iv <? two32) || (t' =? k * iv) = true).
         { destruct (N.ltb_spec (k * iv) two32) as [E|E]; cbn; [|reflexivity].
-          apply N.eqb_eq. rewrite Te; lia. }
-        assert (A5 : match (if disarmable c then Some k else None) with Some x => x =? k | None => true end = true)
-          by (destruct (disarmable c); [apply N.eqb_refl | reflexivity]).
-        rewrite A1, A2, A3, A4, A5. rewrite N.eqb_refl. cbn.
-        unfold two16 in *. lia.
+          apply N.eqb_eq. rewrite N.mul_comm. apply Te. rewrite N.mul_comm. exact E. }
+        rewrite A0, A2, A3, A4, skip_recorded_show, N.eqb_refl. reflexivity.
       + unfold R. cbn [dead]. split; [reflexivity|].
-        constructor; cbn; auto; try (unfold two16, num_channels, two32 in *; lia).
+        constructor; cbn; auto; try apply lt16; try apply lt37; clear - K; lia.
     - (* the multiplication asserts: only possible when the precondition is violated *)
       cbn [fst snd die].
-      assert (two32 <= iv * k).
+      assert (E : two32 <= iv * k).
       { destruct (N.lt_ge_cases (iv * k) two32) as [E|E]; [|exact E]. exfalso. exact (dt_mul_total _ _ E M). }
       replace (((lat + 1) * iv <? two32) && (lat <? two16 - 1)) with false
-        by (symmetry; apply andb_false_iff; left; apply N.ltb_ge; unfold two32 in *; nia).
+        by (symmetry; apply andb_false_iff; left; apply N.ltb_ge; apply (N.le_trans _ _ _ E);
+            rewrite (N.mul_comm iv k); apply N.mul_le_mono_r; clear - K; lia).
       dead_end.
   Qed.
+
+  Lemma sim_tmo iv0 : goal (Tmo iv0).
+  Proof.
+    destruct I. unfold goal, step, mstep. rewrite Ds, Dm.
+    set (iv := iv0 mod two32) in *.
+    destruct (dt_add (time s) iv) as [t'|] eqn:A.
+    - apply dt_add_some in A. destruct A as [-> A].
+      cbn [fst snd show counter chan time ll].
+      eexists. split.
+      + apply judge_ok. cbn [forallb fst]. rewrite ll_shape_show.
+        rewrite (in_range_intro _ _ _ (lt16 _) (lt37 _) A).
+        rewrite i_c0, i_ch0, i_t0, !N.eqb_refl. reflexivity.
+      + unfold R. cbn [dead]. split; [reflexivity|].
+        constructor; cbn; auto; try apply lt16; try apply lt37.
+        intros T. specialize (i_trk0 T). clear - i_trk0. lia.
+    - apply dt_add_none in A. cbn [fst snd die]. rewrite i_t0.
+      replace (time s + iv <? two32) with false by (symmetry; apply N.ltb_ge; exact A).
+      dead_end.
+  Qed.
+
+  Lemma sim_change k : goal (Change k).
+  Proof.
+    destruct I. unfold goal, step, mstep. rewrite Ds, Dm.
+    assert (X : (if is_set c && Nat.ltb k (length (confs c)) then mk (counter s) (chan s) (time s) (ll s) k false else s)
+                = mk (counter s) (chan s) (time s) (ll s) (if is_set c && Nat.ltb k (length (confs c)) then k else cur s) false).
+    { destruct (is_set c && Nat.ltb k (length (confs c))); [reflexivity|]. destruct s; cbn in *. rewrite Ds. reflexivity. }
+    rewrite X. cbn [fst snd show counter chan time ll].
+    eexists. split.
+    - apply judge_ok. cbn [forallb fst]. rewrite ll_shape_show.
+      rewrite (in_range_intro _ _ _ i_cr0 i_chr0 i_tr0).
+      rewrite i_c0, i_ch0, i_t0, !N.eqb_refl. reflexivity.
+    - unfold R. cbn [dead]. split; [reflexivity|].
+      destruct (is_set c && Nat.ltb k (length (confs c))) eqn:E.
+      + apply andb_true_iff in E. destruct E as [_ E]. apply Nat.ltb_lt in E.
+        constructor; cbn [counter chan time ll cur mc mch mt mcur budget dist att tracked]; auto.
+      + constructor; cbn [counter chan time ll cur mc mch mt mcur budget dist att tracked]; auto.
+  Qed.
+
+  Lemma sim_move count iv0 : goal (Move count iv0).
+  Proof.
+    destruct I. unfold goal, step, mstep. rewrite Ds, Dm.
+    pose proof (lt32 iv0) as Liv. set (iv := iv0 mod two32) in *.
+    destruct (Z.ltb_spec 0 count) as [P|P].
+    - cbn [fst snd die].
+      replace (count <=? 0)%Z with false by (symmetry; apply Z.leb_gt; exact P). cbn [andb]. dead_end.
+    - set (mv := Z.to_N (- count)) in *.
+      destruct (move_back s mv iv (ll s)) as [s'|] eqn:MB.
+      + apply move_back_some in MB. destruct MB as (Lm & p & M & Lp & ->).
+        cbn [fst snd show counter chan time ll].
+        pose proof (dt_mul_exact _ _ _ M) as Pe.
+        assert (Tb : time s - p < two32) by (clear - i_tr0; lia).
+        eexists. split.
+        * apply judge_ok. cbn [forallb fst]. rewrite ll_shape_show.
+          rewrite (in_range_intro _ _ _ (lt16 _) (lt37 _) Tb).
+          rewrite i_c0, i_ch0, i_t0, (chan_back _ _ i_chr0 Lm), !N.eqb_refl.
+          replace (count <=? 0)%Z with true by (symmetry; apply Z.leb_le; exact P).
+          replace (mv <=? max_latency) with true by (symmetry; apply N.leb_le; exact Lm).
+          assert (A : negb (mv * iv <? two32) || (time s - p + mv * iv =? time s) = true).
+          { destruct (N.ltb_spec (mv * iv) two32) as [E|E]; cbn; [|reflexivity].
+            apply N.eqb_eq. rewrite (N.mul_comm mv iv) in *. rewrite (Pe E) in *. clear - Lp. lia. }
+          rewrite A. reflexivity.
+        * unfold R. cbn [dead]. split; [reflexivity|].
+          constructor; cbn [counter chan time ll cur mc mch mt mcur budget dist att tracked]; auto; try apply lt16; try apply lt37.
+          intros T. apply andb_true_iff in T. destruct T as [T Z0]. apply N.eqb_eq in Z0. rewrite Z0.
+          specialize (i_trk0 T). clear - i_trk0. lia.
+      + apply move_back_none in MB; [|exact i_tr0]. cbn [fst snd die]. rewrite i_t0.
+        replace ((count <=? 0)%Z && (mv <=? max_latency) && (mv * iv <=? time s)) with false; [dead_end|].
+        symmetry. destruct MB as [A|A].
+        * replace (mv <=? max_latency) with false by (symmetry; apply N.leb_gt; exact A).
+          rewrite andb_false_r. reflexivity.
+        * replace (mv * iv <=? time s) with false by (symmetry; apply N.leb_gt; exact A).
+          rewrite andb_false_r. reflexivity.
+  Qed.
+
+  Lemma sim_keep ok t0 iv0 : 
+    exists m', mstep c m (Resched ok t0 iv0) (show c (Some false) s) = (Ok, m') /\ R c s m'.
+  Proof.
+    destruct I. unfold mstep, show. rewrite Dm.
+    exists m. split.
+    - apply judge_ok. cbn [forallb fst]. rewrite ll_shape_show.
+      rewrite (in_range_intro _ _ _ i_cr0 i_chr0 i_tr0).
+      rewrite i_c0, i_ch0, i_t0, !N.eqb_refl. reflexivity.
+    - unfold R. rewrite Ds. split; [exact Dm | exact I].
+  Qed.
+
+  Lemma sim_resched ok t0 iv0 : goal (Resched ok t0 iv0).
+  Proof.
+    pose proof (sim_keep ok t0 iv0) as KEEP.
+    destruct I. unfold goal, step. rewrite Ds.
+    pose proof (lt32 iv0) as Liv. pose proof (lt32 t0) as Lt.
+    set (iv := iv0 mod two32) in *. set (t := t0 mod two32) in *.
+    destruct (disarmable c) eqn:DA; cbn [negb]; [|exact KEEP].
+    destruct (N.eqb_spec (ll s) 1) as [L1|L1]; [exact KEEP|].
+    destruct ok; cbn [negb]; [|exact KEEP].
+    unfold mstep. rewrite Dm. fold t iv.
+    destruct (N.eqb_spec iv 0) as [Z0|Z0].
+    { cbn [fst snd die negb orb]. rewrite Z0. cbn. dead_end. }
+    destruct (dt_add t iv) as [x|] eqn:A.
+    2:{ apply dt_add_none in A. cbn [fst snd die negb orb].
+        replace (t + iv <? two32) with false by (symmetry; apply N.ltb_ge; exact A).
+        rewrite andb_false_r. cbn. dead_end. }
+    apply dt_add_some in A. destruct A as [_ A].
+    destruct (N.leb_spec two31 (resched_times t iv)) as [B|B].
+    { cbn [fst snd die negb orb].
+      replace ((t + iv - 1) / iv <? two31) with false
+        by (symmetry; apply N.ltb_ge; clear - B; unfold resched_times, two31 in *; lia).
+      rewrite andb_false_r. cbn. dead_end. }
+    set (moved := N.min (resched_times t iv) (ll s)).
+    assert (M1 : 1 <= moved <= ll s) by (subst moved; clear - i_ll0; unfold resched_times; lia).
+    set (mm := ll s - moved) in *.
+    assert (Mb : mm <= budget m) by (subst mm; clear - M1 i_ll0; lia).
+    destruct (move_back s mm iv 1) as [s'|] eqn:MB.
+    - apply move_back_some in MB. destruct MB as (Lm & p & M & Lp & ->).
+      cbn [fst snd show counter chan time ll]. rewrite DA.
+      pose proof (dt_mul_exact _ _ _ M) as Pe.
+      assert (Tb : time s - p < two32) by (clear - i_tr0; lia).
+      assert (L16 : mm < two16) by (clear - Lm; unfold max_latency, two16 in *; lia).
+      rewrite i_c0, (obs_back _ _ i_cr0 L16).
+      (* under the radio's contract a timed-out event is never passed again *)
+      assert (CT : tracked m = true -> att m * iv <= t -> att m < dist m - mm).
+      { intros T C. specialize (i_trk0 T). destruct i_trk0 as (D1 & D2 & [D3|D3]).
+        - clear - D1 D2 D3 Mb. lia.
+        - assert (att m <= resched_times t iv) by (apply times_ge; [clear - Z0; lia | exact C]).
+          assert (mm = 0) by (subst mm moved; clear - H D3 i_ll0; lia).
+          clear - H0 D2. lia. }
+      eexists. split.
+      + apply judge_ok. cbn [forallb fst ll_shape]. rewrite DA.
+        rewrite (in_range_intro _ _ _ (lt16 _) (lt37 _) Tb).
+        rewrite i_ch0, i_t0, (chan_back _ _ i_chr0 Lm), !N.eqb_refl.
+        replace (mm <=? budget m) with true by (symmetry; apply N.leb_le; exact Mb).
+        assert (A1 : negb (tracked m) || (mm <? dist m) = true).
+        { destruct (tracked m) eqn:T; cbn; [|reflexivity]. specialize (i_trk0 eq_refl).
+          apply N.ltb_lt. clear - i_trk0 Mb. lia. }
+        assert (A2 : negb (tracked m) || negb (att m * iv <=? t) || (att m <? dist m - mm) = true).
+        { destruct (tracked m) eqn:T; cbn; [|reflexivity].
+          destruct (N.leb_spec (att m * iv) t) as [C|C]; cbn; [|reflexivity].
+          apply N.ltb_lt. apply CT; auto. }
+        assert (A3 : negb (mm * iv <? two32) || (time s - p + mm * iv =? time s) = true).
+        { destruct (N.ltb_spec (mm * iv) two32) as [E|E]; cbn; [|reflexivity].
+          apply N.eqb_eq. rewrite (N.mul_comm mm iv) in *. rewrite (Pe E) in *. clear - Lp. lia. }
+        rewrite A1, A2, A3. reflexivity.
+      + unfold R. cbn [dead]. split; [reflexivity|].
+        constructor; cbn [counter chan time ll cur mc mch mt mcur budget dist att tracked]; auto; try apply lt16; try apply lt37.
+        intros T. pose proof (i_trk0 T) as D.
+        destruct (N.leb_spec (att m * iv) t) as [C|C].
+        * specialize (CT T C). clear - CT D Mb. lia.
+        * clear - D Mb. lia.
+    - apply move_back_none in MB; [|exact i_tr0]. cbn [fst snd die negb orb]. rewrite i_t0.
+      replace ((0 <? iv) && (t + iv <? two32) && ((t + iv - 1) / iv <? two31) && (budget m <=? max_latency) && (budget m * iv <=? time s))
+        with false; [dead_end|].
+      symmetry. destruct MB as [E|E].
+      + replace (budget m <=? max_latency) with false by (symmetry; apply N.leb_gt; clear - E Mb; lia).
+        rewrite andb_false_r. reflexivity.
+      + replace (budget m * iv <=? time s) with false; [rewrite andb_false_r; reflexivity|].
+        symmetry. apply N.leb_gt. apply (N.lt_le_trans _ _ _ E). apply N.mul_le_mono_r. exact Mb.
+  Qed.
+
+  Theorem step_sim o : op_ok o -> goal o.
+  Proof.
+    destruct o; intros OK.
+    - apply sim_reset.
+    - apply sim_plan. exact OK.
+    - apply sim_tmo.
+    - apply sim_resched.
+    - apply sim_move.
+    - apply sim_change.
+  Qed.
 End Sim.
+
+(* ------------------------------------------------------------------ whole histories *)
+Lemma step_dead c s o : dead s = true -> step c s o = (s, OSkipped).
+Proof. unfold step. intros ->. reflexivity. Qed.
+
+Lemma step_R c s m o : wf_cfg c -> R c s m -> op_ok o ->
+  exists m', mstep c m o (snd (step c s o)) = (Ok, m') /\ R c (fst (step c s o)) m'.
+Proof.
+  intros W HR OK. unfold R in HR. destruct (dead s) eqn:D.
+  - rewrite (step_dead c s o D). cbn [fst snd]. exists m. split.
+    + unfold mstep. rewrite HR. reflexivity.
+    + unfold R. rewrite D. exact HR.
+  - destruct HR as [Dm I]. apply step_sim; auto.
+Qed.
+
+Lemma R_init c : wf_cfg c -> R c (init c) minit.
+Proof.
+  intros W. unfold R, init, minit. cbn [dead]. split; [reflexivity|].
+  constructor; cbn; auto; try reflexivity.
+  - intros S. specialize (W S). destruct (confs c); [congruence | cbn; lia].
+  - intros _. lia.
+Qed.
+
+Lemma monitor_from_accepts c : wf_cfg c -> forall ops s m pos,
+  R c s m -> Forall op_ok ops -> monitor_from c m pos (run c s ops) = None.
+Proof.
+  intros W. induction ops as [|o t IH]; intros s m pos HR OK; [reflexivity|].
+  inversion OK as [|? ? O1 O2]; subst.
+  destruct (step_R c s m o W HR O1) as (m' & E & HR').
+  cbn [run]. destruct (step c s o) as [s' r] eqn:ST. cbn [fst snd] in *.
+  cbn [monitor_from]. rewrite E. apply IH; assumption.
+Qed.
+
+(* MAIN: for every configuration (any option lists; a set needs one member), every history of
+   reset / plan / timeout / reschedule / move / change calls with any arguments - latencies other
+   than 65535 - the specification monitor accepts the model's trace. *)
+Theorem monitor_accepts c ops : wf_cfg c -> Forall op_ok ops -> monitor c (run c (init c) ops) = None.
+Proof. intros W OK. apply monitor_from_accepts; auto. apply R_init; auto. Qed.
+
+(* the full statement (no restriction on the latency argument) and its refutation: latency 65535 *)
+Definition accepts_all_latencies : Prop :=
+  forall c ops, legal c = true -> monitor c (run c (init c) ops) = None.
+
+Definition no_events : events := mke false false false false false false.
+Definition cfg_single (o : list N) : cfg := mkcfg false [o].
+
+Lemma skip_zero_witness :
+  monitor (cfg_single []) (run (cfg_single []) (init (cfg_single [])) [Plan 65535 no_events 7500 false 0])
+  = Some (0%nat, t_skip_range).
+Proof. vm_compute. reflexivity. Qed.
+
+Theorem accepts_all_latencies_refuted : ~ accepts_all_latencies.
+Proof.
+  intros H. specialize (H (cfg_single []) [Plan 65535 no_events 7500 false 0] eq_refl).
+  rewrite skip_zero_witness in H. discriminate.
+Qed.
+
+(* ------------------------------------------------------------------ counter and channel follow the events *)
+(* The abstract, unwrapped number of the planned connection event: 0 after a reset, + planned skip,
+   + 1 per timeout, - pull-back. *)
+Definition delta (c : cfg) (s : state) (o : op) : Z :=
+  match o with
+  | Plan lat0 ev _ pend inst0 => Z.of_N (plan_skip c s (lat0 mod two16) ev pend (inst0 mod two16))
+  | Tmo _ => 1%Z
+  | Resched ok t0 iv0 =>
+      if disarmable c && negb (ll s =? 1) && ok
+      then Z.opp (Z.of_N (ll s - N.min (resched_times (t0 mod two32) (iv0 mod two32)) (ll s))) else 0%Z
+  | Move count _ => count
+  | _ => 0%Z
+  end.
+
+Definition next_event (c : cfg) (s : state) (e : Z) (o : op) : Z :=
+  match o with Reset => 0%Z | _ => (e + delta c s o)%Z end.
+
+Fixpoint final (c : cfg) (s : state) (ops : list op) : state :=
+  match ops with [] => s | o :: t => final c (fst (step c s o)) t end.
+
+Fixpoint events_passed (c : cfg) (s : state) (e : Z) (ops : list op) : Z :=
+  match ops with
+  | [] => e
+  | o :: t => let s' := fst (step c s o) in
+              events_passed c s' (if dead s' then e else next_event c s e o) t
+  end.
+
+Definition tracks (s : state) (e : Z) : Prop :=
+  dead s = false -> (Z.of_N (counter s) = e mod 65536 /\ Z.of_N (chan s) = e mod 37)%Z.
+
+Lemma move_back_tracks s mm iv nl s' e : move_back s mm iv nl = Some s' -> tracks s e -> dead s = false ->
+  tracks s' (e - Z.of_N mm).
+Proof.
+  intros MB T D. apply move_back_some in MB. destruct MB as (Lm & p & _ & _ & ->).
+  specialize (T D). destruct T as [T1 T2]. intros _. cbn [counter chan].
+  unfold two16, num_channels, move_offset, max_latency in *. split; lia.
+Qed.
+
+Lemma step_tracks c s e o : tracks s e ->
+  let s' := fst (step c s o) in tracks s' (if dead s' then e else next_event c s e o).
+Proof.
+  intros T. cbn zeta. unfold step. destruct (dead s) eqn:D; [cbn [fst]; rewrite D; intros X; congruence|].
+  specialize (T D). destruct T as [T1 T2].
+  destruct o as [|lat0 ev iv0 pend inst0|iv0|ok t0 iv0|count iv0|k].
+  - cbn [fst dead]. intros _. cbn. split; reflexivity.
+  - set (k := plan_skip c s (lat0 mod two16) ev pend (inst0 mod two16)).
+    destruct (dt_mul (iv0 mod two32) k); [|cbn; intros X; discriminate].
+    destruct (disarmable c && (k =? 0)); [cbn; intros X; discriminate|].
+    cbn [fst dead next_event delta]. fold k. intros _. cbn [counter chan].
+    unfold two16, num_channels in *. split; lia.
+  - destruct (dt_add (time s) (iv0 mod two32)); [|cbn; intros X; discriminate].
+    cbn [fst dead next_event delta]. intros _. cbn [counter chan].
+    unfold two16, num_channels in *. split; lia.
+  - cbn [next_event delta].
+    destruct (disarmable c); cbn [negb andb]; [|cbn [fst]; rewrite D, Z.add_0_r; intros _; auto].
+    destruct (ll s =? 1); cbn [negb andb]; [cbn [fst]; rewrite D, Z.add_0_r; intros _; auto|].
+    destruct ok; cbn [negb]; [|cbn [fst]; rewrite D, Z.add_0_r; intros _; auto].
+    destruct (iv0 mod two32 =? 0); [cbn; intros X; discriminate|].
+    destruct (dt_add (t0 mod two32) (iv0 mod two32)); [|cbn; intros X; discriminate].
+    destruct (two31 <=? resched_times (t0 mod two32) (iv0 mod two32)); [cbn; intros X; discriminate|].
+    destruct (move_back s _ (iv0 mod two32) 1) as [s'|] eqn:MB; [|cbn; intros X; discriminate].
+    cbn [fst]. pose proof (move_back_some _ _ _ _ _ MB) as (_ & p & _ & _ & E).
+    replace (dead s') with false by (rewrite E; reflexivity).
+    rewrite Z.add_opp_r. apply (move_back_tracks _ _ _ _ _ _ MB); [intros _; auto | exact D].
+  - destruct (Z.ltb_spec 0 count) as [P|P]; [cbn; intros X; discriminate|].
+    destruct (move_back s _ (iv0 mod two32) (ll s)) as [s'|] eqn:MB; [|cbn; intros X; discriminate].
+    cbn [fst next_event delta]. pose proof (move_back_some _ _ _ _ _ MB) as (_ & p & _ & _ & E).
+    replace (dead s') with false by (rewrite E; reflexivity).
+    replace (e + count)%Z with (e - Z.of_N (Z.to_N (- count)))%Z by lia.
+    apply (move_back_tracks _ _ _ _ _ _ MB); [intros _; auto | exact D].
+  - cbn [next_event delta]. rewrite Z.add_0_r.
+    destruct (is_set c && Nat.ltb k (length (confs c))); cbn [fst dead counter chan]; [|rewrite D]; intros _; auto.
+Qed.
+
+Lemma tracks_run c ops : forall s e, tracks s e -> tracks (final c s ops) (events_passed c s e ops).
+Proof.
+  induction ops as [|o t IH]; intros s e T; [exact T|].
+  cbn [final events_passed]. apply IH. apply step_tracks. exact T.
+Qed.
+
+(* For every configuration and every history whatsoever (no hypothesis at all): as long as no
+   assert has fired, the 16 bit event counter and the channel index are the unwrapped number of
+   the planned event reduced mod 2^16 and mod 37 - they advance (and are pulled back) together. *)
+Theorem counter_channel_track_events c ops :
+  let s := final c (init c) ops in
+  let e := events_passed c (init c) 0 ops in
+  dead s = false -> (Z.of_N (counter s) = e mod 65536 /\ Z.of_N (chan s) = e mod 37)%Z.
+Proof. apply tracks_run. intros _. split; reflexivity. Qed.
+
+(* ------------------------------------------------------------------ the link layer's calls do not assert *)
+(* plan_next_connection_event with (latency + 1) * interval below 2^32 us (the link layer: latency <=
+   499, interval <= 4 s, i.e. at most 2 * 10^9 us) never runs into an assert *)
+Lemma plan_no_fault c s lat0 ev iv0 pend inst0 :
+  dead s = false -> lat0 < two16 - 1 -> iv0 < two32 -> (lat0 + 1) * iv0 < two32 ->
+  dead (fst (step c s (Plan lat0 ev iv0 pend inst0))) = false.
+Proof.
+  intros D L Liv P. unfold step. rewrite D.
+  assert (E1 : lat0 mod two16 = lat0) by (apply N.mod_small; unfold two16 in *; lia).
+  assert (E2 : iv0 mod two32 = iv0) by (apply N.mod_small; exact Liv).
+  rewrite E1, E2.
+  pose proof (plan_skip_range c s lat0 ev pend (inst0 mod two16) L) as K.
+  set (k := plan_skip c s lat0 ev pend (inst0 mod two16)) in *.
+  assert (M : iv0 * k < two32).
+  { apply (N.le_lt_trans _ ((lat0 + 1) * iv0)); [|exact P]. rewrite (N.mul_comm iv0 k).
+    apply N.mul_le_mono_r. lia. }
+  destruct (dt_mul iv0 k) eqn:X; [|exfalso; exact (dt_mul_total _ _ M X)].
+  replace (disarmable c && (k =? 0)) with false
+    by (destruct (disarmable c); cbn; [symmetry; apply N.eqb_neq; lia | reflexivity]).
+  reflexivity.
+Qed.
+
+(* ------------------------------------------------------------------ stale last_latency_ after a timeout *)
+(* plan_next_connection_event_after_timeout leaves last_latency_ alone. With a radio that reports less
+   time than has passed (here 0 us, as tests/test_tools/test_radio.hpp does) the planned event is
+   pulled back to event 2 although event 5 has already been listened to; a radio that reports the
+   time since the anchor (> 5 intervals) leaves the plan alone. The monitor's moveback_range clause
+   is conditional on that contract, so both traces are accepted. *)
+Definition cfg_default : cfg := cfg_single [0; 1; 2; 3; 4].
+
+Lemma stale_last_latency_witness :
+  map snd (run cfg_default (init cfg_default) [Plan 4 no_events 7500 false 0; Tmo 7500; Resched true 0 7500])
+  = [OSt None 5 5 37500 (Some 5); OSt None 6 6 45000 (Some 5); OSt (Some true) 2 2 15000 (Some 1)].
+Proof. vm_compute. reflexivity. Qed.
+
+Lemma conforming_radio_keeps_plan :
+  map snd (run cfg_default (init cfg_default) [Plan 4 no_events 7500 false 0; Tmo 7500; Resched true 37600 7500])
+  = [OSt None 5 5 37500 (Some 5); OSt None 6 6 45000 (Some 5); OSt (Some true) 6 6 45000 (Some 1)].
+Proof. vm_compute. reflexivity. Qed.
+
+(* ------------------------------------------------------------------ the legal feature sets *)
+Fixpoint sublists (l : list N) : list (list N) :=
+  match l with [] => [[]] | x :: t => map (cons x) (sublists t) ++ sublists t end.
+
+Lemma legal_feature_sets :
+  length (sublists [0; 1; 2; 3; 4; 5]) = 64%nat /\
+  length (filter (fun o => legal (cfg_single o)) (sublists [0; 1; 2; 3; 4; 5])) = 33%nat.
+Proof. vm_compute. split; reflexivity. Qed.
+
+(* ------------------------------------------------------------------ statements in the spec's vocabulary *)
+Lemma must_listen_skip_one c s lat ev pend inst :
+  (is_set c = true -> (cur s < length (confs c))%nat) ->
+  must_listen c (cur s) ev = true -> plan_skip c s lat ev pend inst = 1.
+Proof. intros L H. apply plan_skip_listen. rewrite <- (must_listen_eq c s ev L). exact H. Qed.
+
+Lemma instant_never_skipped c s lat ev inst : counter s < two16 -> inst < two16 ->
+  forall j, 1 <= j < plan_skip c s lat ev true inst -> (counter s + j) mod two16 <> inst.
+Proof. intros A B. exact (plan_skip_instant c s lat ev true inst eq_refl A B). Qed.
